@@ -228,6 +228,26 @@ fn expected_extension<K: Kind>(
     (nmin, out)
 }
 
+/// Every state of the dense interpolation (spacing L/64) from a to b, both ends included, is
+/// valid in the pure world.
+fn dense_all_valid<K: Kind>(ks: &KSpace<K>, world: &crate::world::World, a: &[f64], b: &[f64], lvs: f64) -> bool {
+    use oxmpl::base::space::StateSpace;
+    let (sa, sb) = (K::dec(&ks.cfg, a), K::dec(&ks.cfg, b));
+    let d = ks.sp.distance(&sa, &sb);
+    if !(lvs > 0.0) || !d.is_finite() {
+        return false;
+    }
+    let n = ((d / (lvs / 64.0)).ceil() as usize).clamp(1, 50_000);
+    let mut out = sa.clone();
+    for i in 0..=n {
+        ks.sp.interpolate(&sa, &sb, i as f64 / n as f64, &mut out);
+        if !world.valid(&ks.cfg, &K::enc(&out)) {
+            return false;
+        }
+    }
+    world.valid(&ks.cfg, b)
+}
+
 fn trees_bits_eq(a: &[NodeF], b: &[NodeF]) -> bool {
     a.len() == b.len()
         && a.iter().zip(b).all(|(x, y)| {
@@ -244,6 +264,7 @@ pub fn transition<K: Kind>(
     prob: &Problem,
     before: &Snap,
     st: &Step,
+    world: &crate::world::World,
     which: Which,
     ctx: &mut Ctx,
 ) {
@@ -320,6 +341,15 @@ pub fn transition<K: Kind>(
                 pos = p;
             }
             let star = case.planner == PlannerTag::RRTStar;
+            if which.c16 && outcome.is_none() && nmin > 0.0 && trees_bits_eq(t0, t1) {
+                // no motion was checked at all: fine only if the extension would have been invalid
+                if cands.iter().all(|(p, s)| dense_all_valid(ks, world, &t0[*p].s, s, trace.lvs)) {
+                    ctx.fail(
+                        format!("C16:valid-extension-not-attempted:{pname}"),
+                        format!("sample {q:?}: no motion check was made and nothing was added, although the extension {:?} -> {:?} is valid at spacing L/64", t0[cands[0].0].s, cands[0].1),
+                    );
+                }
+            }
             if !passed {
                 if which.c16 && !trees_bits_eq(t0, t1) {
                     ctx.fail(
@@ -407,6 +437,14 @@ pub fn transition<K: Kind>(
             let passed = outcome.map(|o| o.0).unwrap_or(false);
             if let Some((_, p)) = outcome {
                 pos = p;
+            }
+            if outcome.is_none() && _nmin > 0.0 && trees_bits_eq(a0, a1) && trees_bits_eq(b0, b1)
+                && cands.iter().all(|(p, s)| dense_all_valid(ks, world, &a0[*p].s, s, trace.lvs))
+            {
+                ctx.fail(
+                    "C16:valid-extension-not-attempted:RRTConnect",
+                    format!("sample {q:?}: no motion check was made and nothing was added, although the extension {:?} -> {:?} is valid at spacing L/64", a0[cands[0].0].s, cands[0].1),
+                );
             }
             if !passed {
                 if !trees_bits_eq(a0, a1) || !trees_bits_eq(b0, b1) {
@@ -633,6 +671,7 @@ pub fn check_trace<K: Kind>(case: &PlanCase, trace: &Trace, which: Which, only_l
     let mut cur_problem: Option<usize> = None;
     let mut solved_once = false;
     let nsteps = trace.steps.len();
+    let worlds = step_worlds(case, trace);
     for (i, st) in trace.steps.iter().enumerate() {
         if matches!(st.res, Res::Panic { .. }) {
             ctx.panicked = true;
@@ -651,7 +690,7 @@ pub fn check_trace<K: Kind>(case: &PlanCase, trace: &Trace, which: Which, only_l
             let prob = &case.problems[pi];
             if do_check && matches!(st.op, Op::Solve { .. }) {
                 if which.c16 || which.c17 {
-                    transition(&ks, case, trace, prob, &before, st, which, ctx);
+                    transition(&ks, case, trace, prob, &before, st, case.world_by_index(worlds[i]), which, ctx);
                 }
             }
             if which.c15 && do_check {
